@@ -150,43 +150,42 @@ func (l *v12Link) drop() {
 }
 
 type v12Cand struct {
-	idx      int
-	node     *v12Node
-	ctl      chan string
-	links    map[int]*v12Link
-	round    int
-	next     string // next phase to start: vote | proposal | commit | "" (finished)
-	inPhase  string
-	expect   int // frames of this phase not yet seen in the network
-	open     int // frames seen and not yet answered / dropped
-	needSelf bool
-	selfOk   bool
-	done     bool // phaseDone received
-	err      error
-	pre      v12AccState
-	pid      uint64
-	voteResp map[int]bool // members whose vote reply reached the candidate
-	propAcks map[int]bool // members that really accepted this round's proposal
-	won      bool
-	epilogue bool // a successful DoProposal returned since the last sweep
+	idx       int
+	node      *v12Node
+	ctl       chan string
+	links     map[int]*v12Link
+	round     int
+	next      string // next phase to start: vote | proposal | commit | "" (finished)
+	inPhase   string
+	expect    int // frames of this phase not yet seen in the network
+	open      int // frames seen and not yet answered / dropped
+	needSelf  bool
+	selfOk    bool
+	done      bool // phaseDone received
+	err       error
+	pre       v12AccState
+	pid       uint64
+	voteResp  map[int]bool // members whose vote reply reached the candidate
+	propAcks  map[int]bool // members that really accepted this round's proposal
+	won       bool
+	epilogue  bool     // a successful DoProposal returned since the last sweep
 	foreign   bool     // this round's commit carries a number the candidate never proposed
 	foreignAt []string // acceptors that recorded such a commit under somebody else's promise
 }
 
 type v12Sim struct {
-	c      *v12Case
-	cl     *v12Cluster
-	mon    *v12Monitor
-	info   *v12Info
-	net    *v12Net
-	cands  []*v12Cand
-	pend   []*v12Frame
-	wins   []string
-	last   []v12AccState
-	erased []string // pending commits of other candidates wiped by a candidate's failed DoCommit
+	c     *v12Case
+	cl    *v12Cluster
+	mon   *v12Monitor
+	info  *v12Info
+	net   *v12Net
+	cands []*v12Cand
+	pend  []*v12Frame
+	wins  []string
+	last  []v12AccState
 }
 
-var v12Watchdog = 30 * time.Second
+var v12Watchdog = 90 * time.Second
 
 func v12Inconclusive(why string) {
 	fmt.Printf("VERIF-INCONCLUSIVE C12 voter simulation: %s\n", why)
@@ -339,8 +338,9 @@ func (s *v12Sim) sweep() *v12Err {
 			if cd != nil && st.commitId >= last.commitId && cd.epilogue && st.proposalId == n.mgr.voter.proposalIndex {
 				// the candidate's acceptor promised last.proposalId to somebody else while its own proposal phase ran;
 				// DoProposal's epilogue (self.proposalId = self.proposalIndex) put the smaller own number back
+				s.mon.cause(v12KeyOwnOverwrite, i, fmt.Sprintf("m%d's DoProposal epilogue lowered its accepted number %d -> %d", i, last.proposalId, st.proposalId))
 				if s.c.TolerateOwnOverwrite {
-					s.info.toleratedOverwrite++
+					s.info.tolerate(v12KeyOwnOverwrite)
 					s.last[i] = st
 					for num := range s.mon.acked[i] {
 						if num > st.proposalId {
@@ -355,9 +355,8 @@ func (s *v12Sim) sweep() *v12Err {
 			return v12Fail(v12KeyRegress, "member %d: numbers went backwards: %s -> %s [%s]", i, last, st, s.mon.history())
 		}
 		if last.host != "" && st.host == "" && last.from != v12Host(i) && st.commitId == last.commitId {
-			s.erased = append(s.erased, fmt.Sprintf("m%d erased %s", i, last))
 			s.info.class("failed DoCommit erased a pending commit recorded for another candidate")
-			s.mon.logf("m%d: pending commit %s erased by its own failed DoCommit", i, last)
+			s.mon.cause(v12KeyForeignClear, i, fmt.Sprintf("m%d's failed DoCommit erased the pending commit %s recorded for another candidate", i, last))
 		}
 		s.last[i] = st
 	}
@@ -474,7 +473,7 @@ func (s *v12Sim) phaseFinished(cd *v12Cand) *v12Err {
 			for _, a := range resp {
 				for _, b := range resp {
 					ma, mb := s.c.Members[a], s.c.Members[b]
-					if cmp := v12PosCmp(s.c.Origin, ma.Pos, mb.Pos); cmp != 0 && cd.node.mgr.CompareAofId(ma.Pos.id(), mb.Pos.id()) != cmp {
+					if cmp := v12PosCmp(s.c.Origin, ma.Pos, mb.Pos); cmp != 0 && cd.node.mgr.CompareAofId(ma.Pos.id(), mb.Pos.id()) != cmp && v12OffsetMajor(cd.node.mgr) {
 						key = v12KeyCmpOrder
 					}
 				}
@@ -505,12 +504,20 @@ func (s *v12Sim) phaseFinished(cd *v12Cand) *v12Err {
 			return nil
 		}
 		cd.epilogue = true
+		if !cd.propAcks[cd.idx] {
+			// same defect as the lowering: the epilogue (self.proposalId = self.proposalIndex) overrides the verdict of
+			// the candidate's own acceptor, which refused this number (pending commit / higher promise)
+			s.mon.cause(v12KeyOwnOverwrite, cd.idx, fmt.Sprintf("m%d's DoProposal epilogue set its accepted number to %d although its own acceptor had refused that proposal (state now %s)",
+				cd.idx, v.proposalIndex, cd.node.state()))
+		}
 		if len(cd.propAcks) < s.cl.majority() {
 			return v12Fail(v12KeyNoMajor, "candidate %d: DoProposal(n=%d) succeeded but only members %v accepted [%s]", cd.idx, cd.pid, v12Keys(cd.propAcks), s.mon.history())
 		}
 		if v.proposalIndex != cd.pid {
 			// an ERR_PROPOSALID reply moved proposalIndex: DoCommit would send a number nobody accepted from us
 			s.info.class("proposal number changed under a successful proposal phase")
+			s.mon.cause(v12KeyForeign, cd.idx, fmt.Sprintf("m%d proposed n=%d, an ERR_PROPOSALID reply moved proposalIndex and DoProposal's epilogue set its accepted number to the foreign n=%d (state %s)",
+				cd.idx, cd.pid, v.proposalIndex, cd.node.state()))
 			if s.c.SkipForeignCommit {
 				s.info.skippedForeign++
 				fail()
@@ -540,20 +547,15 @@ func (s *v12Sim) phaseFinished(cd *v12Cand) *v12Err {
 		}
 		s.wins = append(s.wins, fmt.Sprintf("%s -> leader %s, recorded at members %v", s.label(cd, n), v.voteHost, v12Keys(rec)))
 		s.info.class("a candidate won")
-		if len(s.wins) > 1 && len(s.erased) > 0 && len(s.mon.forgot) == 0 && s.c.TolerateForeignClear {
-			s.info.toleratedClear++
-			s.wins = s.wins[:1]
-		}
 		if len(s.wins) > 1 {
-			key := v12KeyTwoWin
-			if len(s.erased) > 0 {
-				key = v12KeyForeignClear
+			key, withheld := s.mon.blameAny(v12KeyTwoWin)
+			if withheld {
+				s.info.tolerate(key)
+				s.wins = s.wins[:1]
+				return nil
 			}
-			if len(s.mon.forgot) > 0 {
-				key = v12KeyRestart
-			}
-			return v12Fail(key, "two candidates' DoCommit succeeded with recorded commit majorities in one election: %s; members that restarted and forgot numbers: %v [%s]",
-				strings.Join(s.wins, " AND "), s.mon.forgot, s.mon.history()+fmt.Sprintf(" erased=%v", s.erased))
+			return v12Fail(key, "two candidates' DoCommit succeeded with recorded commit majorities in one election: %s; earlier defects in this execution: [%s] [%s]",
+				strings.Join(s.wins, " AND "), s.mon.causeList(), s.mon.history())
 		}
 	}
 	return nil
